@@ -30,7 +30,7 @@ man = {
               'source_commits': [], 'add_only': True},
     'engines': [{'name': 'verus-contracts', 'path': '/verif/tools', 'serves_properties': sorted(props.PROPS),
                  'kind_free_text': 'extract (tools/extract.py) + splice contracts (contracts/*.ctr, spec/*.vrs) + Verus 0.2026.09.13; attribution of failed obligations to properties by clause tags'},
-                {'name': 'native-bounded-oracle', 'path': '/verif/native', 'serves_properties': ['C01', 'C02', 'C03', 'C04', 'C05', 'C06', 'C07', 'C08', 'C09', 'C10', 'C11', 'C14', 'C15', 'C17'],
+                {'name': 'native-bounded-oracle', 'path': '/verif/native', 'serves_properties': ['C01', 'C02', 'C03', 'C04', 'C05', 'C06', 'C07', 'C08', 'C09', 'C10', 'C11', 'C14', 'C15', 'C16', 'C17'],
                  'kind_free_text': 'NOT the deciding technique: plain-Rust transcription of the ISO model (native/src/iso.rs) evaluated through the public API on a deterministic corpus; used (1) as the labelled bounded stand-in when the deductive check of a property is undecided in the current tree, (2) to attach a concrete failing input to a failed obligation, (3) to arbitrate which property a failed multi-property clause belongs to, (4) as extra exploration in the thorough tier; native/c17_harness.rs is the bounded stand-in for the str/SVG clauses of C17'}],
     'checks': checks,
     'not_applicable': na,
